@@ -248,7 +248,7 @@ func TestMetricLog(t *testing.T) {
 			t0 = day + 86400000 - uint64(rapid.IntRange(1, 5000).Draw(t, "beforeMidnight"))
 		}
 		hx.C.SetMs(t0)
-		appName = rapid.SampledFrom([]string{"app", "app", "a.b", "com.example.shop", "svc-1.eu.west.prod"}).Draw(t, "appName")
+		appName = rapid.SampledFrom([]string{"app", "app", "a.b", "com.example.shop", "svc-1.eu.west.prod", "orders[2]", "shop*", "a?b"}).Draw(t, "appName")
 		defer func() { appName = "app" }()
 		c.ClassIf(strings.Count(appName, ".") > 1, "application-name-with-several-dots")
 		maxSize := uint64(rapid.SampledFrom([]int{100, 300, 1000, 100000}).Draw(t, "maxSize"))
